@@ -278,7 +278,15 @@ func (p *Parser) StmtsSeq(r io.Reader) iter.Seq2[*Stmt, error] {
 	return func(yield func(*Stmt, error) bool) {
 		p.rune()
 		p.next()
-		p.stmts(yield)
+		stopped := false
+		p.stmts(func(s *Stmt, err error) bool {
+			stopped = !yield(s, err)
+			return !stopped
+		})
+		if stopped {
+			// yield must not be called again once it returns false.
+			return
+		}
 		if p.err == nil {
 			// EOF immediately after heredoc word so no newline to
 			// trigger the parsing error.
@@ -363,6 +371,16 @@ func (p *Parser) Interactive(r io.Reader, fn func([]*Stmt) bool) error {
 // is not called again.
 func (p *Parser) InteractiveSeq(r io.Reader) iter.Seq2[[]*Stmt, error] {
 	return func(yield func([]*Stmt, error) bool) {
+		// yield must not be called again once it returns false,
+		// and both this loop and the wrapped reader call it.
+		stopped := false
+		userYield := yield
+		yield = func(stmts []*Stmt, err error) bool {
+			if !stopped {
+				stopped = !userYield(stmts, err)
+			}
+			return !stopped
+		}
 		w := wrappedReader{p: p, rd: r, yield: yield}
 		for stmts, err := range p.StmtsSeq(&w) {
 			w.accumulated = append(w.accumulated, stmts)
